@@ -28,6 +28,31 @@ per-schedule term is obtained by running the REAL LinearEstimator on
 (p_1,..,f_j,..,p_K); nothing about L is taken from quara's formulas.
 Each per-schedule term is exactly proportional to 1/n_j (Cov f_j = Sigma_j/n_j),
 which gives the closed-form scaling used for sample sizes beyond enumeration.
+
+HISTORY / COMBINATION steps (`run_history`, after the ordinary part of every case, own random stream ctx.rng(1)).
+The statement holds "for every true object and every list of sample sizes" of every tomography, whatever was asked
+before, so all answers below are judged by the same hook oracles; a key that only the history produced carries the
+step's name as suffix (`PhaseKeys`), provenance / constructor options go into the witness.
+  second-call            same tomography, same true object, asked again (other order, known and new lists) after the
+                         estimator runs, the sampled-data helpers and the 3-sigma checkers have used them
+  second-true-object     a second true object (non-default constructor options, or reached through copy() /
+                         generate_from_var / the tomography's convert_var_to_qoperation / pickle) on the same tomography,
+                         asked alternately with the first one with the SAME remaining arguments
+  transient-true-object  true objects created, asked and dropped one after the other (id() re-use)
+  twin-tomography        second tomography of the same class / flag / sizes built from the SAME tester objects with
+                         explicit reversed schedules and non-default constructor options, asked alternately with the
+                         first about the same true object and lists; for POVM tomography also a sibling with another
+                         number of outcomes
+  via-pickle             pickle round trip of (tomography, true object), clones and originals mixed
+  helpers:re-query       helper functions: same input / other option, another input of the same shape in between
+  returned-arrays-stable every array a formula or helper returned still has the bytes it had when it was returned
+                         (`Keeper`); the sample-size lists and variable arrays passed in are what the caller wrote
+Besides: the hooks judge against the arguments AS THEY WERE WHEN THE CALL WAS MADE (pre-hook snapshot of lists /
+arrays), the true objects the driver builds are pinned (`Judge.pin`: reference = parameters at construction, so an
+object modified behind the caller's back no longer drags the reference along), and the monitor's own copies of A, b and
+of the tester arrays are real copies.  Cost: every case runs second-call + helpers + stability; the other four steps
+rotate over the cases (two per case for state / POVM tomography, one per case for process / measurement-process
+tomography).
 """
 import contextlib
 import math
@@ -51,7 +76,12 @@ RULE = ("tomography instances of 4 types (QST, POVMT, QPT, QMPT) x on_para_eq_co
         "all formulas x both error modes, Fisher matrix / Cramer-Rao bound for object and array arguments and two values "
         "of N, plus sampled data sets through the sample-statistics helpers; a case is distinct by (type, shape, flag, "
         "tester counts, outcome counts, true-object kind, rounded true parameters, sample sizes) and non-trivial because "
-        "every generated case has >= 2 schedules with different sample sizes and a non-degenerate true distribution")
+        "every generated case has >= 2 schedules with different sample sizes and a non-degenerate true distribution; after "
+        "the ordinary part every case runs history steps judged by the same oracles (second call on the same objects, a "
+        "second true object with non-default options or reached through copy / generate_from_var / convert_var_to_qoperation "
+        "/ pickle, transient true objects, a twin tomography from the same tester objects with explicit reversed schedules "
+        "and non-default constructor options, pickle round trip, helper re-queries, stability of returned arrays and of "
+        "the caller's arguments)")
 _SQ = "quara/protocol/qtomography/standard/standard_qtomography.py:StandardQTomography."
 _PV = "quara/protocol/qtomography/standard/standard_povmt.py:StandardPovmt."
 _MU = "quara/utils/matrix_util.py:"
@@ -78,6 +108,7 @@ REQUIRED_ORACLES = [
     "scaling-law", "matrix_util.calc_covariance_mat", "matrix_util.calc_direct_sum", "matrix_util.calc_left_inv",
     "matrix_util.calc_conjugate", "matrix_util.calc_fisher_matrix", "matrix_util.replace_prob_dist", "matrix_util.calc_se",
     "matrix_util.calc_mse_prob_dists", "data_analysis.calc_mse_qoperations", "fisher:boundary-rule", "cramer_rao:boundary-rule",
+    "returned-array-unchanged-by-later-calls", "arguments-unchanged-by-the-formulas",
 ]
 MIN_EVALS = {"quick": 20000, "thorough": 200000}
 WATCHDOG = {"quick": 900, "thorough": 3600}
@@ -93,6 +124,10 @@ ASSUMPTIONS = [
     "true objects carry the same on_para_eq_constraint flag as the tomography (the library re-creates them that way "
     "before calling the formulas)",
     "sizes beyond enumeration are judged through the exact 1/n_j proportionality of every per-schedule term",
+    "history steps use supported operations only (public formulas, constructors with documented options, copy(), "
+    "generate_from_var, convert_var_to_qoperation, pickle, explicit schedule lists); a provenance that does not keep the "
+    "type or the on_para_eq_constraint flag, a constructor refusing an option and a failing pickle round trip are "
+    "recorded, not judged (other properties' business)",
 ]
 
 TOMOS = ["qst", "povmt", "qpt", "qmpt"]
@@ -793,7 +828,12 @@ def install_tomography_hooks(hs, J):
             m_obj = (M.A.shape[1] + (dd if M.flag else 0)) // (dd * dd)
         else:
             m_obj = 1
-        Jm = jacobian_obj_var(t, M.A.shape[1], M.flag, M.d, m_obj)
+        try:
+            Jm = jacobian_obj_var(t, M.A.shape[1], M.flag, M.d, m_obj)
+        except ValueError:  # number of variables does not fit (type, flag, outcomes): no reference for this call
+            return None
+        if Jm.ndim != 2 or Jm.shape[1] != inv.shape[0]:
+            return None
         return {"M": M, "var_bound": float(np.sum(1.0 / w)), "obj_bound": float(np.trace(Jm @ inv @ Jm.T)), "cond": cond,
                 "boundary": any(c == "boundary" for c in cls), "kind": kind, "ns": ns_}
 
@@ -1492,7 +1532,7 @@ class PhaseKeys:
     history.  Within a case a key keeps the suffix of the step that showed it first."""
 
     def __init__(self, ctx):
-        self.ctx, self.cur, self.fresh, self.first = ctx, None, set(), {}
+        self.ctx, self.cur, self.detail, self.fresh, self.first = ctx, None, None, set(), {}
         self.cpu = {}  # CPU seconds per step: cost information for the evidence, never used in a verdict
         self._orig = ctx.violation
         ctx.violation = self._violation  # instance attribute: ctx.num / ctx.truth call self.violation
@@ -1502,7 +1542,7 @@ class PhaseKeys:
             self.fresh.add(key)
         elif key not in self.fresh:
             if isinstance(info, dict):
-                info = dict(info, history_step=self.cur)
+                info = dict(info, history_step=self.cur + (f"[{self.detail}]" if self.detail else ""))
             key = f"{key}:{self.first.setdefault(key, self.cur)}"
         self._orig(key, info)
 
@@ -1510,16 +1550,18 @@ class PhaseKeys:
         self.cur, self.fresh, self.first = None, set(), {}
 
     @contextlib.contextmanager
-    def step(self, name):
-        prev, self.cur = self.cur, name
-        base = name.split("[")[0].split("+")[0]
-        self.ctx.count("history-step:" + base)
+    def step(self, name, detail=None):
+        """`detail` (provenance of an object, constructor options used) goes into the witness, not into the key"""
+        prev, self.cur, self.detail = (self.cur, self.detail), name, detail
+        self.ctx.count("history-step:" + name)
+        if detail:
+            self.ctx.count(f"history-step:{name}[{detail}]")
         t0 = time.process_time()
         try:
             yield
         finally:
-            self.cur = prev
-            self.cpu[base] = self.cpu.get(base, 0.0) + time.process_time() - t0
+            self.cur, self.detail = prev
+            self.cpu[name] = self.cpu.get(name, 0.0) + time.process_time() - t0
 
     def restore(self):
         self.ctx.__dict__.pop("violation", None)
@@ -1729,8 +1771,12 @@ def run_history(ctx, ph, J, hs, keep, call, S):
     qt, true, tag, K, sizes, lists = S["qt"], S["true"], S["tag"], S["K"], S["sizes"], S["lists"]
     m_true, i = S["m_true"], S["i"]
     heavy = tomo in ("qpt", "qmpt")
-    even = i % 2 == 0  # every case: second call + helpers + stability; even cases: second true object + twin tomography;
-    # odd cases: transient objects + pickle round trip + the 3-sigma checkers again
+    # every case: second call + helpers + stability.  One-qubit state / POVM tomography: even cases second true object
+    # and twin tomography, odd cases transient objects and pickle round trip.  Process / measurement-process tomography
+    # (a formula call costs 5-10 times more there): one of the four per case, in turn.
+    even = i % 2 == 0
+    do_second, do_twin = (i % 4 == 0, i % 4 == 2) if heavy else (even, even)
+    do_transient, do_pickle = (i % 4 == 1, i % 4 == 3) if heavy else (not even, not even)
     all_js = list(range(K))[::-1]
     some_js = sorted({int(x) for x in rh.integers(0, K, size=3)})
     hns = hist_sizes(rh, sizes)
@@ -1745,10 +1791,12 @@ def run_history(ctx, ph, J, hs, keep, call, S):
         call("calc_cramer_rao_bound", tag, qt.calc_cramer_rao_bound, true, N, lists["mixed"])
         ask_all(call, tag, qt, true, lists["mixed"], N, ws, all_js if i % 4 == 0 else some_js[::-1], var_arr=var_arr,
                 level="full" if i % 4 == 0 else "lite")
-        call("calc_mse_linear_analytical", tag, qt.calc_mse_linear_analytical, true, lists["large"], mode="qoperation")
+        if i % 4 == 3:
+            call("calc_mse_linear_analytical", tag, qt.calc_mse_linear_analytical, true, lists["large"], mode="qoperation")
         call("calc_cramer_rao_bound", tag, qt.calc_cramer_rao_bound, var_arr, N, lists["large"])
-        ask_all(call, tag, qt, true, hns, N, ws, some_js, var_arr=var_arr, level="lite")
-        if S.get("sim") is not None and not even:
+        if even:
+            ask_all(call, tag, qt, true, hns, N, ws, some_js, var_arr=var_arr, level="lite")
+        if S.get("sim") is not None and i % 4 == 1:
             setting, sim, results = S["sim"]
             call("compare_to_analytical", tag, mse_mod.compare_to_analytical, setting, results, qt, show_detail=False)
             call("check_mse_of_empirical_distributions", tag, mse_mod.check_mse_of_empirical_distributions, sim, show_detail=False)
@@ -1759,22 +1807,20 @@ def run_history(ctx, ph, J, hs, keep, call, S):
     # ---- (b, d) a second true object (not a plain default-option constructor call) on the same tomography, the two
     # asked alternately with the SAME remaining arguments
     prov = PROVENANCES[int(rh.integers(0, len(PROVENANCES)))]
-    true2 = second_true_object(ctx, rh, tomo, c_sys, d, m_true, flag, qt, true, prov) if even else None
+    true2 = second_true_object(ctx, rh, tomo, c_sys, d, m_true, flag, qt, true, prov) if do_second else None
     if true2 is None:
         pass
     elif bool(true2.on_para_eq_constraint) != flag or gen.type_of(true2) != gen.type_of(true):
         ctx.count(f"recorded-not-judged:second-true-object:{prov}:flag-or-type-not-kept")
     else:
         J.pin(true2)
-        with ph.step(f"second-true-object[{prov}]"):
+        with ph.step("second-true-object", detail=prov):
             ask_all(call, tag, qt, true2, hns, N, ws, some_js, level="lite")
             ask_all(call, tag, qt, true, hns, N, ws, some_js, var_arr=var_arr, level="lite")
             ask_all(call, tag, qt, true2, hns, N, ws, some_js[::-1], level="micro" if heavy else "full")
-            if not heavy:
-                ask_all(call, tag, qt, true2, lists["equal"], N, ws, some_js[:1], level="lite")
 
     # ---- objects that are created, asked and dropped one after the other (an id()-keyed memo sees equal keys)
-    if not even:
+    if do_transient:
         with ph.step("transient-true-object"):
             for r in range(3):
                 o = make_true(tomo, c_sys, draw_true(tomo, d, m_true, rh, ["interior", "rankdef", "sharp"][r]), on_para_eq_constraint=flag)
@@ -1784,14 +1830,13 @@ def run_history(ctx, ph, J, hs, keep, call, S):
 
     # ---- (c, d) twin tomography: same class / flag / sizes, SAME tester objects, reversed explicit schedules,
     # non-default constructor options; the two asked alternately about the same true object with the same lists
-    qt2, opts, err = build_twin(ctx, rh, tomo, qt, S["states"], S["povms"], m_true, flag) if even else (None, None, None)
-    if not even:
+    qt2, opts, err = build_twin(ctx, rh, tomo, qt, S["states"], S["povms"], m_true, flag) if do_twin else (None, None, None)
+    if not do_twin:
         pass
-    elif qt2 is None:
-        ctx.violation(f"{tomo}.ctor:explicit-reversed-schedules:" + ctx.exc_key(err), {"options": opts})
+    elif qt2 is None:  # which schedule lists / options a constructor accepts is not this property's business
+        ctx.count(f"recorded-not-judged:twin-tomography-ctor-raises:{type(err).__name__}")
     else:
-        step = "twin-tomography" + ("+ctor-options" if opts else "")
-        with ph.step(step):
+        with ph.step("twin-tomography", detail="non-default-ctor-options" if opts else None):
             ask_all(call, tag, qt2, true, hns, N, ws, some_js, var_arr=var_arr, level="lite")
             ask_all(call, tag, qt, true, hns, N, ws, some_js, var_arr=var_arr, level="lite")
             ask_all(call, tag, qt2, true, lists["mixed"], N, ws, some_js[::-1], level="micro")
@@ -1806,7 +1851,7 @@ def run_history(ctx, ph, J, hs, keep, call, S):
                     ask_all(call, tag, qt, true, hns, N, ws, some_js[:1], level="lite")
 
     # ---- (b) pickle round trip of tomography and true object (the library pickles both: joblib workers, to_pickle)
-    if not even:
+    if do_pickle:
         okp, got = ctx.attempt(lambda: pickle.loads(pickle.dumps((qt, true))))
         if not okp:
             ctx.count(f"recorded-not-judged:pickle-round-trip-raises:{type(got).__name__}")
